@@ -2,7 +2,7 @@
 import importlib, sys, time
 from . import build
 
-TARGETS = ['c17', 'c18', 'c14', 'c05', 'c02', 'c03', 'c08', 'c11', 'c13', 'c16', 'c15', 'c10', 'c12', 'c09', 'c19','c20', 'c04', 'c07', 'c06']
+TARGETS = ['c17', 'c18', 'c14', 'c05', 'c02', 'c03', 'c08', 'c11', 'c13', 'c16', 'c15', 'c10', 'c12', 'c09', 'c19','c20', 'c04', 'c07', 'c06', 'c01']
 
 
 def main():
